@@ -512,7 +512,10 @@ class Sim(object):
     def _compatible(self, obj, spec):
         a = numpy.shape(spec['val'])
         if spec['kind'] == 'nd':
-            return isinstance(obj, numpy.ndarray) and obj.shape == a
+            # (same dtype, too: writing float values into an integer array the caller used before
+            # would cast them, out of range even with undefined results)
+            want = numpy.dtype(int) if spec.get('dtype') == 'int' else numpy.dtype(float)
+            return isinstance(obj, numpy.ndarray) and obj.shape == a and obj.dtype == want
         return isinstance(obj, self.al.UTPM) and obj.data.shape == a
 
     def call_fwd(self, c, step):
